@@ -107,3 +107,24 @@ package fingerprint
 //@ func WithDry$1
 //@   modifies config.dry
 //@   ensures config.dry == dry                                                                        [C12]
+
+// ---- C05: what "up to date" means for the two sources checkers ----------------------------------------
+// genOK(t,k): the k-th generates pattern of t resolved to at least one existing file in this check.
+//@ ghost table genOK(t *ast.Task, k int) bool local
+//@ ghost var compared bool scratch
+//@ ghost var refreshed bool scratch
+
+//@ func (*ChecksumChecker).IsUpToDate
+//@   site glob#1 ghost genOK(t, $i) := result.1 == nil && len(result.0) > 0
+//@   loop 1 invariant forall k {genOK(t, k)} :: 0 <= k && k < $i ==> t.Generates[k].Negate || genOK(t, k)            [C05]
+//@   ensures result.0 && result.1 == nil ==>
+//@           forall k {genOK(t, k)} :: 0 <= k && k < len(t.Generates) ==> t.Generates[k].Negate || genOK(t, k)       [C05]
+
+// With method timestamp a check that got as far as comparing the times always refreshes the stamp (unless dry),
+// whatever the verdict: otherwise the run that rebuilds would leave a stale stamp behind.
+//@ func (*TimestampChecker).IsUpToDate
+//@   init compared := false
+//@   init refreshed := false
+//@   site anyFileNewerThan#1 ghost compared := result.1 == nil
+//@   site os.Chtimes#1 ghost refreshed := true
+//@   ensures result.1 == nil && compared && !checker.dry ==> refreshed                                               [C05]
